@@ -219,6 +219,20 @@ func (r *c09Run) do(step bson.D) error {
 			return err
 		}
 		return r.sync()
+	case "uncommitted":
+		// an engine-level write transaction that is abandoned (or a
+		// find-and-modify that is rejected after its write): the published
+		// change log does not move and no stream sees anything of it
+		before := len(r.env.engine.Catalog().Namespaces[lungo.Oplog].Documents.List)
+		res, err := r.env.execStep(asD(getD(step, "step")))
+		if err != nil {
+			return err
+		}
+		_ = res // rejected, aborted, or nothing matched: in no case a commit
+		if after := len(r.env.engine.Catalog().Namespaces[lungo.Oplog].Documents.List); after != before {
+			return fmt.Errorf("a write that never committed (%s) added %d event(s) to the published change log", show(getD(step, "step")), after-before)
+		}
+		return r.sync()
 	case "sleep":
 		time.Sleep(1050 * time.Millisecond)
 		return nil
@@ -346,6 +360,12 @@ var profStream = &hProfile{name: "stream", cfg: gen.Core, weights: map[string]in
 func genC09Step(t *rapid.T, r *c09Run, lost bool) bson.D {
 	k := rapid.IntRange(0, 99).Draw(t, "kind")
 	switch {
+	case k < 4:
+		ns := rapid.SampledFrom(profStream.nss).Draw(t, "uns")
+		if rapid.Bool().Draw(t, "ukind") {
+			return bson.D{{Key: "kind", Value: "uncommitted"}, {Key: "step", Value: bson.D{{Key: "op", Value: "txnAborted"}, {Key: "ns", Value: ns}, {Key: "what", Value: rapid.SampledFrom([]string{"deleteAll", "deleteAll", "dropColl", "dropDB", "create"}).Draw(t, "uwhat")}}}}
+		}
+		return bson.D{{Key: "kind", Value: "uncommitted"}, {Key: "step", Value: bson.D{{Key: "op", Value: "findOneAndDelete"}, {Key: "ns", Value: ns}, {Key: "filter", Value: bson.D{}}, {Key: "proj", Value: bson.D{{Key: "a", Value: int32(1)}, {Key: "b", Value: int32(0)}}}}}}
 	case k < 45:
 		view := (&hRun{env: r.env}).view()
 		return bson.D{{Key: "kind", Value: "write"}, {Key: "step", Value: profStream.genStep(t, view)}}
